@@ -223,8 +223,17 @@ def status_regex(fmt, how):
 def e2e_case(ctx, seed):
     rng = random.Random(seed)
     sc, expect = make_scenario(rng, seed)
+    regen = rng.random() < 0.15
+    if regen:
+        # the manifest is itself an output and out of date: ninja regenerates it in a build of its own and reports the real build
+        # through the same status object - whose counters start over
+        sc["regen_manifest"] = True
+        sc["sources"]["build.ninja.in"] = "# what the manifest is generated from\n"
     t = e2e.Tree(sc)
     try:
+        if regen:
+            t.write("build.ninja.in", "# what the manifest is generated from\n# changed\n")
+            ctx.count("scenarios_with_stale_self_regenerating_manifest")
         mode = rng.choice(("pipe", "pipe", "pty"))
         how, fmt = rng.choice(STATUS_FORMATS)
         env = {"TERM": "xterm" if mode == "pty" else "dumb"}
@@ -316,6 +325,7 @@ def e2e_case(ctx, seed):
                 return
             last_f = -1
             nlines = 0
+            restarted = False
             for mm in re.finditer(rx + re.escape(t.vtool.encode()), so):
                 v = dict(zip(names, mm.groups()))
                 nlines += 1
@@ -336,6 +346,8 @@ def e2e_case(ctx, seed):
                     bad = "finished > started"
                 elif "p" in num and "f" in num and "t" in num and num["t"] and num["p"] != (100 * num["f"]) // num["t"]:
                     bad = "percentage != 100*finished/total"
+                elif "f" in num and num["f"] < last_f and regen and not restarted:
+                    restarted = True        # the build that regenerated the manifest is over, the real one starts counting again
                 elif "f" in num and num["f"] < last_f:
                     bad = "finished went backwards"
                 if bad:
@@ -491,6 +503,11 @@ def nsim_counters(ctx, rng, n):
                 if ev["e"] != "ST":
                     continue
                 s, f, tt, rr, u = (int(x) for x in ev["prog"].split("/"))
+                if ev["call"] == "bfinish":
+                    # the build is over and nothing is reported any more: the object is at rest (since 8488d8b it forgets the
+                    # finished plan's total here); "finished equals total" is judged on the last sample of the build itself
+                    ctx.count("status_samples_after_build_finished")
+                    continue
                 tots.add(tt)
                 ctx.count("status_samples")
                 if not (f <= s <= tt) or rr != s - f or u != tt - s:
